@@ -343,7 +343,11 @@ func (c *c29Run) clientOp(ci int) {
 		c.open(me)
 	case aTurn:
 		s := c.pick(mine)
-		if s.Cursor == "" {
+		if tp.Bool(1, 3) {
+			// a producer stream bound to the session: its first Produce turn runs
+			// inside the /init request after the init handler has returned
+			c.sendResume("pinit", s, me, s.Worker)
+		} else if s.Cursor == "" {
 			c.sendResume("sinit", s, me, s.Worker)
 		} else {
 			c.sendResume("turn", s, me, s.Worker)
